@@ -134,7 +134,12 @@ class BehavioralRTLIRToVVisitorL1( bir.BehavioralRTLIRNodeVisitor ):
     return s._is_verilog_reserved( name )
 
   def process_unpacked_q( s, node, signal, signal_tplt ):
-    if isinstance( node.Type, rt.Port ):
+    Type = node.Type
+    # The pending component/interface indices go right after the name of
+    # a port array, before the indices into the array itself
+    if isinstance( Type, rt.Array ):
+      Type = Type.get_sub_type()
+    if isinstance( Type, rt.Port ):
       filler = ''.join([f'[{i}]' for i in list(s._unpacked_q)])
       s._unpacked_q.clear()
       if '{}' in signal_tplt:
